@@ -270,8 +270,12 @@ def batch_case(ctx, name, make, ndims, domain, rng, lines, pending):
     n = rng.randint(1, 9)
     frac = rng.choice([0.0, 0.0, 0.3, 0.6]) if is_pwa else 0.0
     x, ind = gen_points(rng, n, ndims, domain, frac)
+    if not is_pwa and rng.random() < 0.35:
+        # integer-dtype input (pixel indices are what warps feed to apply): same values, other dtype
+        x = np.round(x).astype(rng.choice([np.int64, np.int32, np.uint16]) if (x >= 0).all() else np.int64)
+    ctx.count("batch-dtype:" + str(x.dtype))
     base = safe_apply(make(), x.copy())
-    rp = {"class": name, "points": x.tolist(), "in_domain": ind}
+    rp = {"class": name, "points": x.tolist(), "dtype": str(x.dtype), "in_domain": ind}
     if is_pwa:
         want_mask = np.array([not b for b in ind])
         if all(ind):
@@ -287,7 +291,7 @@ def batch_case(ctx, name, make, ndims, domain, rng, lines, pending):
         as_shape = rng.random() < 0.25
         got = safe_apply(t, PointCloud(x.copy()) if as_shape else x.copy(), batch_size=k)
         ctx.count("batch:%s" % ("k<n" if k < n else "k=n" if k == n else "k>n"))
-        ctx.case(("batch", name, n, k, tuple(ind)), nontrivial=(1 < k < n or (k > n and n > 1)),
+        ctx.case(("batch", name, n, k, str(x.dtype), tuple(ind)), nontrivial=(1 < k < n or (k > n and n > 1)),
                  sample={"class": name, "n": n, "batch_size": k, "in_domain": ind})
         if is_pwa and not all(ind):
             ok = got[0] == "tce" and got[1].shape == (n,) and bool(np.all(got[1] == np.array([not b for b in ind])))
